@@ -271,7 +271,22 @@ def check(ctx: Ctx) -> str:
     ctx.check("node.with_context = False" in ast.unparse(pf.node), "parse_from:default", "parser:Parser.parse_from", "context default", "from-import must default to without context", pf.loc())
     pi = repo.func("parser:Parser.parse_include")
     s = ast.unparse(pi.node)
-    ctx.check("self.stream.current.test('name:ignore') and self.stream.look().test('name:missing')" in s and "node.ignore_missing = False" in s, "parse_include:ignore", "parser:Parser.parse_include", "ignore missing", "`ignore missing` must be recognised only as the two-word sequence", pi.loc())
+    from ..normalize import atoms as _atoms6
+
+    both = {("self.stream.current.test('name:ignore')", True), ("self.stream.look().test('name:missing')", True)}
+    skips = [c for c in astq.calls(pi.node) if ast.unparse(c.func) == "self.stream.skip" and c.args and ast.unparse(c.args[0]) == "2"]
+    ign_ok = len(skips) == 1 and {a_ for a_ in astq.guard_atoms(pi.node, skips[0]) if not a_[0].isidentifier()} == both  # (a named sub-test is resolved to its atoms)
+    for a_ in ast.walk(pi.node):
+        if isinstance(a_, ast.Assign) and ast.unparse(a_.targets[0]) == "node.ignore_missing":
+            v_ = a_.value
+            if isinstance(v_, ast.Name):
+                defs_ = [d_ for d_ in ast.walk(pi.node) if isinstance(d_, ast.Assign) and len(d_.targets) == 1 and isinstance(d_.targets[0], ast.Name) and d_.targets[0].id == v_.id]
+                v_ = defs_[0].value if len(defs_) == 1 else v_
+            if isinstance(v_, ast.Constant):
+                ign_ok = ign_ok and (v_.value is False or (v_.value is True and both <= set(astq.guard_atoms(pi.node, a_))))
+            else:
+                ign_ok = ign_ok and set(_atoms6(v_, True)) == both
+    ctx.check(ign_ok, "parse_include:ignore", "parser:Parser.parse_include", "ignore missing", "`ignore missing` must be recognised only as the two-word sequence", pi.loc())
     pc = repo.func("parser:Parser.parse_import_context")
     s = ast.unparse(pc.node)
     ctx.check("self.stream.look().test('name:context')" in s and "next(self.stream).value == 'with'" in s and "node.with_context = default" in s, "parse_import_context", "parser:Parser.parse_import_context", "with/without context", "with/without must be followed by `context`; the flag is true exactly for `with`", pc.loc())
